@@ -72,13 +72,16 @@ impl GenericSingleObjectWriter {
         if !Self::HEADER_LENGTH_RANGE.contains(&original_length) {
             Err(Details::IllegalSingleObjectWriterState.into())
         } else {
-            write_value_ref_owned_resolved(&self.resolved, v, &mut self.buffer)?;
-            writer
-                .write_all(&self.buffer)
-                .map_err(Details::WriteBytes)?;
-            let len = self.buffer.len();
+            let result = match write_value_ref_owned_resolved(&self.resolved, v, &mut self.buffer) {
+                Ok(_) => match writer.write_all(&self.buffer) {
+                    Ok(()) => Ok(self.buffer.len()),
+                    Err(e) => Err(Details::WriteBytes(e).into()),
+                },
+                Err(e) => Err(e),
+            };
+            // Restore the buffer to just the header, also when encoding or writing failed
             self.buffer.truncate(original_length);
-            Ok(len)
+            result
         }
     }
 
